@@ -11,12 +11,14 @@ import (
 	"encoding/json"
 	"errors"
 	"fmt"
+	"os"
 	"sort"
 	"strings"
 	"sync"
 	"testing"
 	"time"
 
+	"github.com/go-zookeeper/zk"
 	"github.com/rs/zerolog"
 
 	vk "github.com/yandex/mysync/internal/verifkit"
@@ -88,6 +90,10 @@ func zOpGal(o zOp) string {
 		return "(OAdvance " + vk.Z(int64(o.Dt)) + ")"
 	case "garbage":
 		return "(ORawGarbage " + zRawGal(o.P) + ")"
+	case "pred": // the predecessor process of client c (same host name, another pid, its own session) = client 50+c of the machine
+		return "(OAcquire " + fmt.Sprintf("%d%%N", 50+o.C) + " " + zRawGal(o.P) + ")"
+	case "predexpire":
+		return "(OExpire " + fmt.Sprintf("%d%%N", 50+o.C) + ")"
 	}
 	return "(OAdvance 0)"
 }
@@ -142,6 +148,29 @@ func zRun(t *testing.T, in zIn) zOut {
 		sort.Ints(r)
 		return r
 	}
+	// predecessors: the process that ran on a client's host before it (killed without closing its session, which the
+	// server has not expired yet): a raw connection with its own session writing lock records {hostname, another pid}
+	preds := map[int]*zk.Conn{}
+	pred := func(c int) *zk.Conn {
+		if g := preds[c]; g != nil {
+			return g
+		}
+		g, _, err := zk.Connect([]string{srv.Addr()}, fzkTimeout, zk.WithLogger(fzkQuiet{}))
+		_ = nop
+		if err != nil {
+			t.Fatal(err)
+		}
+		for i := 0; i < 250 && g.State() != zk.StateHasSession; i++ {
+			time.Sleep(20 * time.Millisecond)
+		}
+		preds[c] = g
+		return g
+	}
+	defer func() {
+		for _, g := range preds {
+			g.Close()
+		}
+	}()
 	for oi, o := range in.Ops {
 		res := "ZOk"
 		opStart := time.Now()
@@ -221,6 +250,13 @@ func zRun(t *testing.T, in zIn) zOut {
 				// (overwriting an existing ephemeral key keeps its owner)
 				if n, ok := srv.Dump()[full]; ok && n.EphemeralOwner != z.conn.SessionID() {
 					out.Notes3 = append(out.Notes3, fmt.Sprintf("op %d: SetEphemeral %q succeeded but the key is owned by %x, not by the writing session %x (0 = persistent)", len(out.Res), o.P, n.EphemeralOwner, z.conn.SessionID()))
+				}
+			}
+			if n0, existed := dump[full]; o.Eph && res == "ZOk" && existed && n0.EphemeralOwner == 0 {
+				// a plain key is never silently turned into an ephemeral one: the write is refused; told "written", the
+				// caller takes the key for one that goes away with its session
+				if n, ok := srv.Dump()[full]; ok && n.EphemeralOwner == 0 {
+					out.Notes3 = append(out.Notes3, fmt.Sprintf("op %d: SetEphemeral %q over a plain key is acknowledged and the key stays plain (owner 0): it will outlive the writing session %x", len(out.Res), o.P, z.conn.SessionID()))
 				}
 			}
 			if mustWork && res != "ZOk" {
@@ -415,9 +451,35 @@ func zRun(t *testing.T, in zIn) zOut {
 				told[o.C] = r1
 			}
 		case "release":
+			full := z.buildFullPath(o.P)
+			before, existed := srv.Dump()[full]
 			z.ReleaseLock(o.P)
+			if _, still := srv.Dump()[full]; existed && !still && before.EphemeralOwner != z.conn.SessionID() {
+				out.Notes = append(out.Notes, fmt.Sprintf("op %d: the release of %s by client %d removed a lock node owned by another session (%x, the client's session %x)", len(out.Res), full, o.C, before.EphemeralOwner, z.conn.SessionID()))
+			}
 			if strings.Trim(o.P, "/") == "lock" {
 				told[o.C] = false
+			}
+		case "pred":
+			// what AcquireLock does, without a cache (these ops are generated with lock_held_ttl = 0 only)
+			g := pred(o.C)
+			full := z.buildFullPath(o.P)
+			rec, _ := json.Marshal(LockOwner{fmt.Sprintf("h%d", o.C), os.Getpid() + 1})
+			ok := false
+			data, _, err := g.Get(full)
+			if errors.Is(err, zk.ErrNoNode) {
+				_, err = g.Create(full, rec, zk.FlagEphemeral, zk.WorldACL(zk.PermAll))
+				ok = err == nil
+			} else if err == nil {
+				ok = string(data) == string(rec)
+			}
+			res = "(ZBool " + vk.B(ok) + ")"
+		case "predexpire":
+			g := pred(o.C)
+			old := g.SessionID()
+			srv.ExpireSession(old)
+			for i := 0; i < 250 && (g.SessionID() == old || g.State() != zk.StateHasSession); i++ {
+				time.Sleep(20 * time.Millisecond)
 			}
 		case "expire":
 			old := z.conn.SessionID()
@@ -455,6 +517,9 @@ func zRun(t *testing.T, in zIn) zOut {
 	for _, z := range cl {
 		out.Owner = append(out.Owner, z.conn.SessionID())
 	}
+	for _, g := range preds {
+		out.Owner = append(out.Owner, g.SessionID())
+	}
 	return out
 }
 
@@ -486,6 +551,23 @@ func zPaths(r interface{ Intn(int) int }, lock bool) string {
 	return p
 }
 
+// zVal: half of the writes draw from three values, so that writing the value a key already holds (by another
+// session, with the other kind of key) is common
+type fzkQuiet struct{}
+
+func (fzkQuiet) Printf(string, ...any) {}
+
+func zVal(r interface{ Intn(int) int }) int {
+	if r.Intn(2) == 0 {
+		return r.Intn(3)
+	}
+	return r.Intn(50)
+}
+
+func sp0(r interface{ Intn(int) int }) string {
+	return []string{"lock", "/lock", "lock/", "//lock"}[r.Intn(4)]
+}
+
 func zGen(o *vk.Out, lockHeavy bool) zIn {
 	r := o.Rng
 	in := zIn{Clients: 1 + r.Intn(3), TTL: []int{0, 400, 30000}[r.Intn(3)]}
@@ -498,9 +580,9 @@ func zGen(o *vk.Out, lockHeavy bool) zIn {
 		}
 		switch {
 		case k < 3:
-			in.Ops = append(in.Ops, zOp{Op: "create", C: c, P: zPaths(r, false), V: r.Intn(50), Eph: r.Intn(3) == 0})
+			in.Ops = append(in.Ops, zOp{Op: "create", C: c, P: zPaths(r, false), V: zVal(r), Eph: r.Intn(3) == 0})
 		case k < 6:
-			in.Ops = append(in.Ops, zOp{Op: "set", C: c, P: zPaths(r, false), V: r.Intn(50), Eph: r.Intn(3) == 0})
+			in.Ops = append(in.Ops, zOp{Op: "set", C: c, P: zPaths(r, false), V: zVal(r), Eph: r.Intn(3) == 0})
 		case k < 8:
 			in.Ops = append(in.Ops, zOp{Op: "get", C: c, P: zPaths(r, r.Intn(6) == 0)})
 		case k < 9:
@@ -549,6 +631,30 @@ func zGen(o *vk.Out, lockHeavy bool) zIn {
 		dance := []zOp{{Op: "acquire", C: 1, P: sp()}, {Op: "release", C: 1, P: sp()}, {Op: "acquire", C: 2, P: sp()}, {Op: "acquire", C: 1, P: sp()}, {Op: "release", C: 2, P: sp()}, {Op: "release", C: 1, P: sp()}}
 		in.Ops = append(in.Ops[:at], append(dance, in.Ops[at:]...)...)
 	}
+	if in.TTL == 0 && r.Intn(2) == 0 {
+		// a restart without a closed session: the predecessor of client c still owns the lock node when c asks, until the
+		// server expires it; others ask in between; c releases
+		c := 1 + r.Intn(in.Clients)
+		sp := func() string { return []string{"lock", "/lock", "lock/", "//lock", "m/lock"}[r.Intn(5)] }
+		p := sp()
+		if p != "m/lock" {
+			p = "lock"
+		}
+		spp := func() string {
+			if p == "m/lock" {
+				return p
+			}
+			return sp0(r)
+		}
+		at := r.Intn(len(in.Ops) + 1)
+		story := []zOp{{Op: "pred", C: c, P: spp()}, {Op: "acquire", C: c, P: spp()}}
+		if r.Intn(2) == 0 {
+			story = append(story, zOp{Op: "release", C: c, P: spp()})
+		}
+		story = append(story, zOp{Op: "acquire", C: 1 + r.Intn(in.Clients), P: spp()}, zOp{Op: "pred", C: c, P: spp()}, zOp{Op: "predexpire", C: c},
+			zOp{Op: "acquire", C: 1 + r.Intn(in.Clients), P: spp()}, zOp{Op: "acquire", C: c, P: spp()}, zOp{Op: "pred", C: c, P: spp()})
+		in.Ops = append(in.Ops[:at], append(story, in.Ops[at:]...)...)
+	}
 	// closing sweep: what every short path holds
 	for _, p := range []string{"a", "b", "a/a", "a/b", "b/a", "b/b", "a/a/a", "a/b/a", "lock", "m/lock", "m"} {
 		in.Ops = append(in.Ops, zOp{Op: "get", C: 1, P: p}, zOp{Op: "children", C: 1, P: p})
@@ -561,6 +667,14 @@ func zCase(in zIn, out zOut) string {
 	cs := []string{}
 	for i := 1; i <= in.Clients; i++ {
 		cs = append(cs, fmt.Sprintf("%d%%N", i))
+	}
+	for i := 1; i <= in.Clients; i++ {
+		for _, o := range in.Ops {
+			if (o.Op == "pred" || o.Op == "predexpire") && o.C == i {
+				cs = append(cs, fmt.Sprintf("%d%%N", 50+i))
+				break
+			}
+		}
 	}
 	ops := []string{}
 	ri := 0
